@@ -1,9 +1,10 @@
 import argparse, json, os, sys, time
 from common import *
-import props, stages, corr_rt
+import props, stages, corr_rt, corr_cc
 
 CORRS = {
     "k1": corr_rt.k1,
+    "cc": corr_cc.cc,
 }
 
 
@@ -51,43 +52,84 @@ def main(argv):
     broken_proofs = [o for o in obligations if not o[1]]
 
     # ---- correspondences ----
-    corr_results = {}
-    for c in P["corr"]:
-        r = CORRS[c](ctx)
-        corr_results[c] = r
-        obligations.append(("correspondence " + c, bool(r.get("ok")), None))
+    # a property names (stage, part) pairs; a stage is computed once per tree state and shared
+    stage_results, part_results = {}, {}
+    for stage, part in P["corr"]:
+        if stage not in stage_results:
+            stage_results[stage] = CORRS[stage](ctx)
+        r = stage_results[stage]
+        name = stage if part is None else f"{stage}:{part}"
+        if r.get("broken"):
+            pr = {"ok": False, "broken": r["broken"], "detail": r.get("detail"), "crash": r.get("crash"), "n": 0, "dis": []}
+        elif part is None:
+            pr = {"ok": bool(r.get("ok")), "n": r.get("histories", r.get("evaluations", 0)),
+                  "n_dis": r.get("n_disagreements", 0), "dis": r.get("disagreements", [])}
+        else:
+            q = r["parts"][part]
+            pr = {"ok": q["n_dis"] == 0, "n": q["n"], "n_dis": q["n_dis"], "dis": q["dis"]}
+        part_results[name] = pr
+        obligations.append(("correspondence " + name, pr["ok"], None))
 
     # ---- decide ----
-    known = [k for k in load_known() if pid in k.get("properties", []) and k.get("status") == "open"]
-    for c, r in corr_results.items():
-        if r.get("ok"):
+    # impl-level disagreements (implementation vs an oracle that does not depend on the model) are
+    # failing inputs; model-level ones mean the model no longer describes the code: search the
+    # impl-level results of this run for a failing input, else report no-failing-input-found.
+    def impl_level(name, d):
+        if name == "k1":
+            return bool(d.get("impl_vs_spec", True))
+        if name in ("cc:k6a", "cc:k6d"):
+            return True
+        if name == "cc:k6e":
+            return "Buildable=True" in d.get("model", "") or "Buildable=true" in d.get("model", "")
+        return False
+
+    failing, modelonly, broken = [], [], []
+    for name, pr in part_results.items():
+        if pr.get("broken"):
+            broken.append((name, pr))
             continue
-        if r.get("broken"):
-            # the correspondence itself could not run
-            found = bool(r.get("crash"))
-            rp = write_replay(pid, c, {"property": pid, "what": f"correspondence {c} could not be evaluated: {r['broken']}",
-                                       "detail": r.get("detail"), "failing_input_found": found})
-            violations.append((rp, found))
-            continue
-        for d in r.get("disagreements", [])[:1]:
-            found = bool(d.get("impl_vs_spec", True))
-            rp = write_replay(pid, c, {
-                "property": pid, "correspondence": c, "input": d.get("request"),
-                "implementation": d.get("impl"), "model": d.get("model"), "specification": d.get("spec"),
-                "failing_input_found": found,
-                "how_to_replay": f"{VERIF}/check {pid} --replay <this file>",
-                "note": "smallest of %d disagreeing inputs" % r.get("n_disagreements", 1)})
-            violations.append((rp, found))
+        for d in pr["dis"]:
+            (failing if impl_level(name, d) else modelonly).append((name, d))
+    # widen the search: any impl-level disagreement of the stages this property uses
+    if (modelonly or broken_proofs) and not failing:
+        for stage, r in stage_results.items():
+            for part, q in (r.get("parts") or {}).items():
+                name = f"{stage}:{part}"
+                for d in q["dis"]:
+                    if impl_level(name, d) and name in P.get("search", []):
+                        failing.append((name, d))
+    failing.sort(key=lambda x: x[1].get("size", 0))
+    for name, pr in broken:
+        found = bool(pr.get("crash"))
+        rp = write_replay(pid, name.replace(":", "_"), {"property": pid,
+             "what": f"correspondence {name} could not be evaluated: {pr['broken']}", "detail": pr.get("detail"),
+             "failing_input_found": found})
+        violations.append((rp, found))
+    if failing:
+        name, d = failing[0]
+        rp = write_replay(pid, name.replace(":", "_"), dict(d, property=pid, correspondence=name, failing_input_found=True,
+             how_to_replay=f"{VERIF}/check {pid} --replay <this file>",
+             note="smallest of %d failing inputs; %d further model/implementation disagreements" % (len(failing), len(modelonly))))
+        violations.append((rp, True))
+    elif modelonly:
+        name, d = modelonly[0]
+        rp = write_replay(pid, name.replace(":", "_"), dict(d, property=pid, correspondence=name, failing_input_found=False,
+             what=f"correspondence {name} no longer holds: the Lean model and the implementation disagree on this input, "
+                  "but no input was found on which the implementation differs from the property's oracle"))
+        violations.append((rp, False))
     if broken_proofs and not violations:
-        # a proof obligation no longer checks and no correspondence exhibits a failing input
         rp = write_replay(pid, "proof", {"property": pid, "what": "proof obligation(s) no longer check",
                                          "obligations": [[o[0], o[2]] for o in broken_proofs],
                                          "lean_errors": L["errors"][-1:] if L["errors"] else [],
                                          "failing_input_found": False})
         violations.append((rp, False))
+    corr_results = part_results
 
     # ---- evidence ----
-    evals = sum(r.get("histories", r.get("evaluations", 0)) for r in corr_results.values())
+    evals = sum(r.get("n", 0) for r in corr_results.values())
+    stage_cov = {}
+    for stage, r in stage_results.items():
+        stage_cov[stage] = {k: v for k, v in r.items() if k not in ("disagreements", "parts", "detail")}
     ev = {
         "property_id": pid, "tier": tier, "seed": seed, "level": "proof",
         "coverage": {
@@ -98,10 +140,11 @@ def main(argv):
             "trusted_base": props.TB_COMMON + ["modelled, not verified: " + P["modelled"]],
             "obligation_list": [{"name": o[0], "discharged": o[1], "axioms": o[2]} for o in obligations],
             "evaluations": evals,
-            "distinct_nontrivial": sum(r.get("distinct_nontrivial", 0) for r in corr_results.values()),
+            "distinct_nontrivial": sum(r.get("distinct_nontrivial", 0) for r in stage_results.values()),
             "rule": "correspondence inputs: see per-correspondence stats; non-trivial = a run with at least one successful advance or a panic; distinct = distinct implementation answer strings",
-            "samples": sum([r.get("stats", {}).get("samples", [])[:3] for r in corr_results.values()], []) or ["(none)"],
-            "correspondences": {c: {k: v for k, v in r.items() if k not in ("disagreements",)} for c, r in corr_results.items()},
+            "samples": sum([(r.get("stats", {}).get("samples") or r.get("samples") or [])[:3] for r in stage_results.values()], []) or ["(none)"],
+            "correspondences": {c: {"inputs": r.get("n", 0), "disagreements": r.get("n_dis", 0)} for c, r in corr_results.items()},
+            "stages": stage_cov,
             "exhaustive": False,
         },
         "assumptions": props.TB_COMMON,
